@@ -1,5 +1,5 @@
 """C04 -- fast-packet reassembly is exact under interleaving, reordering, duplication and loss."""
-from .. import rules_decoder as D
+from .. import rules_reasm as RR
 
 LEVEL = 'other'
 EXPLANATION = (
@@ -20,4 +20,4 @@ def run(chk, program, tier):
                  ('RA-PRE', 'later frame without first frame dropped before writes'), ('RA-ORDER', 'sorted concatenation'), ('RA-DONE', 'completion and deletion'),
                  ('RA-TRUNC', 'payload bounded by announced length'), ('RA-COUNT', 'completion counts exactly the stored payload bytes'), ('RA-SAFE', 'raise before write')):
         chk.rule(r, t)
-    D.reassembly(chk, program)
+    RR.decide(chk, program, tier, ['RA-KEY', 'RA-SEQ', 'RA-DUP', 'RA-RESET', 'RA-PRE', 'RA-ORDER', 'RA-DONE', 'RA-TRUNC', 'RA-COUNT', 'RA-SAFE'])
